@@ -165,3 +165,29 @@ def run_shard(tier, shard, res: Result):
         run_bodies(shard, res)
     else:
         run_names(shard, res)
+
+
+def replay(witness, res: Result):
+    from ..core import unjson_bytes
+    how = witness["encoding"]
+    if "active" in witness:
+        names = [unjson_bytes(n) for n in witness["stored"]]
+        active = unjson_bytes(witness["active"]) if witness["active"] else None
+        ok, out, sess = list_once(names, active, how)
+        print("listscripts ->", out, "ok" if ok else "DIFFERS")
+        if not ok:
+            res.violation({"op": "listscripts", "encoding": how,
+                           "cause": cause_of(names, active, how), "outcome": "differs"},
+                          {"stored": names, "active": active})
+    else:
+        body = unjson_bytes(witness["stored"]) or b""
+        srv = ms.Server(users={b"user": b"pw"}, scripts={b"s": body}, encodings="quoted")
+        srv.how_script = lambda: how
+        sess, r = mslab.authed_session(srv)
+        out = sess.call("getscript", "s")
+        ok = out[0] == "ret" and isinstance(out[1], str) and \
+            norm_lines(out[1]) == norm_lines(body.decode("utf-8"))
+        print("getscript ->", out, "ok" if ok else "DIFFERS")
+        if not ok:
+            res.violation({"op": "getscript", "encoding": how, "cause": "replay",
+                           "outcome": "differs"}, {"stored": body})
